@@ -24,6 +24,9 @@ def regex_prep_decorators : List String := []
 /-- the signature of dataiter/regex.py: _prep: parameters in order, with the source text of their defaults -/
 def regex_prep_signature : List String := ["string", "dtype", "default"]
 
+/-- the calls of dataiter/regex.py: _prep in the order Python makes them along the source text -/
+def regex_prep_call_order : List String := ["isinstance", "isinstance", "np.full_like"]
+
 /-- dataiter/regex.py: findall (sha256 of the function source: 4902cc55f73494f2) -/
 def regex_findall (truth : Term → Bool) : Out :=
   if truth (Term.app "util.is_scalar" [(Term.sym "string")]) then
@@ -40,6 +43,9 @@ def regex_findall_decorators : List String := []
 
 /-- the signature of dataiter/regex.py: findall: parameters in order, with the source text of their defaults -/
 def regex_findall_signature : List String := ["pattern", "string", "flags=0"]
+
+/-- the calls of dataiter/regex.py: findall in the order Python makes them along the source text -/
+def regex_findall_call_order : List String := ["util.is_scalar", "re.findall", "_prep", "np.flatnonzero", "re.findall", "Vector.fast"]
 
 /-- dataiter/regex.py: fullmatch (sha256 of the function source: ec51428baae53866) -/
 def regex_fullmatch (truth : Term → Bool) : Out :=
@@ -58,6 +64,9 @@ def regex_fullmatch_decorators : List String := []
 /-- the signature of dataiter/regex.py: fullmatch: parameters in order, with the source text of their defaults -/
 def regex_fullmatch_signature : List String := ["pattern", "string", "flags=0"]
 
+/-- the calls of dataiter/regex.py: fullmatch in the order Python makes them along the source text -/
+def regex_fullmatch_call_order : List String := ["util.is_scalar", "re.fullmatch", "_prep", "np.flatnonzero", "re.fullmatch", "Vector.fast"]
+
 /-- dataiter/regex.py: match (sha256 of the function source: c6e925bac0647769) -/
 def regex_match (truth : Term → Bool) : Out :=
   if truth (Term.app "util.is_scalar" [(Term.sym "string")]) then
@@ -74,6 +83,9 @@ def regex_match_decorators : List String := []
 
 /-- the signature of dataiter/regex.py: match: parameters in order, with the source text of their defaults -/
 def regex_match_signature : List String := ["pattern", "string", "flags=0"]
+
+/-- the calls of dataiter/regex.py: match in the order Python makes them along the source text -/
+def regex_match_call_order : List String := ["util.is_scalar", "re.match", "_prep", "np.flatnonzero", "re.match", "Vector.fast"]
 
 /-- dataiter/regex.py: search (sha256 of the function source: 12b06671de6cfb13) -/
 def regex_search (truth : Term → Bool) : Out :=
@@ -92,6 +104,9 @@ def regex_search_decorators : List String := []
 /-- the signature of dataiter/regex.py: search: parameters in order, with the source text of their defaults -/
 def regex_search_signature : List String := ["pattern", "string", "flags=0"]
 
+/-- the calls of dataiter/regex.py: search in the order Python makes them along the source text -/
+def regex_search_call_order : List String := ["util.is_scalar", "re.search", "_prep", "np.flatnonzero", "re.search", "Vector.fast"]
+
 /-- dataiter/regex.py: split (sha256 of the function source: 8ef049b1a9914292) -/
 def regex_split (truth : Term → Bool) : Out :=
   if truth (Term.app "util.is_scalar" [(Term.sym "string")]) then
@@ -108,6 +123,9 @@ def regex_split_decorators : List String := []
 
 /-- the signature of dataiter/regex.py: split: parameters in order, with the source text of their defaults -/
 def regex_split_signature : List String := ["pattern", "string", "maxsplit=0", "flags=0"]
+
+/-- the calls of dataiter/regex.py: split in the order Python makes them along the source text -/
+def regex_split_call_order : List String := ["util.is_scalar", "re.split", "_prep", "np.flatnonzero", "re.split", "Vector.fast"]
 
 /-- dataiter/regex.py: sub (sha256 of the function source: a357078e3cf50bcf) -/
 def regex_sub (truth : Term → Bool) : Out :=
@@ -126,6 +144,9 @@ def regex_sub_decorators : List String := []
 /-- the signature of dataiter/regex.py: sub: parameters in order, with the source text of their defaults -/
 def regex_sub_signature : List String := ["pattern", "repl", "string", "count=0", "flags=0"]
 
+/-- the calls of dataiter/regex.py: sub in the order Python makes them along the source text -/
+def regex_sub_call_order : List String := ["util.is_scalar", "re.sub", "_prep", "np.flatnonzero", "re.sub", "Vector.fast"]
+
 /-- dataiter/regex.py: subn (sha256 of the function source: 7393a5bff2ee5411) -/
 def regex_subn (truth : Term → Bool) : Out :=
   if truth (Term.app "util.is_scalar" [(Term.sym "string")]) then
@@ -142,6 +163,9 @@ def regex_subn_decorators : List String := []
 
 /-- the signature of dataiter/regex.py: subn: parameters in order, with the source text of their defaults -/
 def regex_subn_signature : List String := ["pattern", "repl", "string", "count=0", "flags=0"]
+
+/-- the calls of dataiter/regex.py: subn in the order Python makes them along the source text -/
+def regex_subn_call_order : List String := ["util.is_scalar", "re.subn", "_prep", "np.flatnonzero", "re.subn", "Vector.fast"]
 
 /-- dataiter/dt.py: _pull_int (sha256 of the function source: e730627818a8e6fd) -/
 def dt_pull_int (truth : Term → Bool) : Out :=
@@ -167,6 +191,9 @@ def dt_pull_int_decorators : List String := []
 /-- the signature of dataiter/dt.py: _pull_int: parameters in order, with the source text of their defaults -/
 def dt_pull_int_signature : List String := ["x", "function"]
 
+/-- the calls of dataiter/dt.py: _pull_int in the order Python makes them along the source text -/
+def dt_pull_int_call_order : List String := ["util.is_scalar", "Vector", "_pull_int", "isinstance", "np.issubdtype", "np.full_like", "Vector.fast", "np.isnat", "na.all", "np.vectorize", "x[~na].astype", "f", "na.any", "out.as_integer"]
+
 /-- dataiter/dt.py: _pull_str (sha256 of the function source: 0ace260099d3c2a1) -/
 def dt_pull_str (truth : Term → Bool) : Out :=
   if truth (Term.app "util.is_scalar" [(Term.sym "x")]) then
@@ -190,6 +217,9 @@ def dt_pull_str_decorators : List String := []
 
 /-- the signature of dataiter/dt.py: _pull_str: parameters in order, with the source text of their defaults -/
 def dt_pull_str_signature : List String := ["x", "function"]
+
+/-- the calls of dataiter/dt.py: _pull_str in the order Python makes them along the source text -/
+def dt_pull_str_call_order : List String := ["util.is_scalar", "Vector", "_pull_str", "isinstance", "np.issubdtype", "np.full_like", "Vector.fast", "np.isnat", "na.all", "out.as_string", "np.vectorize", "x[~na].astype", "f", "out.as_string"]
 
 /-- dataiter/dt.py: _pull_datetime (sha256 of the function source: b450a177d6bbe7de) -/
 def dt_pull_datetime (truth : Term → Bool) : Out :=
@@ -215,6 +245,9 @@ def dt_pull_datetime_decorators : List String := []
 /-- the signature of dataiter/dt.py: _pull_datetime: parameters in order, with the source text of their defaults -/
 def dt_pull_datetime_signature : List String := ["x", "function"]
 
+/-- the calls of dataiter/dt.py: _pull_datetime in the order Python makes them along the source text -/
+def dt_pull_datetime_call_order : List String := ["util.is_scalar", "Vector", "_pull_datetime", "isinstance", "np.issubdtype", "np.full_like", "Vector.fast", "np.isnat", "na.all", "np.vectorize", "x[~na].astype", "f"]
+
 /-- dataiter/dt.py: to_string (sha256 of the function source: b9b05e2e2af69566) -/
 def dt_to_string (truth : Term → Bool) : Out :=
   Out.ret [] (Term.app "_pull_str" [(Term.sym "x"), (Term.app "lambda" [(Term.app "params" [(Term.sym "x")]), (Term.app ".strftime" [(Term.sym "x"), (Term.sym "format")])])])
@@ -224,6 +257,9 @@ def dt_to_string_decorators : List String := []
 
 /-- the signature of dataiter/dt.py: to_string: parameters in order, with the source text of their defaults -/
 def dt_to_string_signature : List String := ["x", "format"]
+
+/-- the calls of dataiter/dt.py: to_string in the order Python makes them along the source text -/
+def dt_to_string_call_order : List String := ["_pull_str"]
 
 /-- dataiter/dt.py: from_string (sha256 of the function source: 14a94c6c4b66d16c) -/
 def dt_from_string (truth : Term → Bool) : Out :=
@@ -259,6 +295,9 @@ def dt_from_string_decorators : List String := []
 /-- the signature of dataiter/dt.py: from_string: parameters in order, with the source text of their defaults -/
 def dt_from_string_signature : List String := ["x", "format"]
 
+/-- the calls of dataiter/dt.py: from_string in the order Python makes them along the source text -/
+def dt_from_string_call_order : List String := ["util.is_scalar", "Vector", "from_string", "isinstance", "isinstance", "np.full_like", "Vector.fast", "na.all", "np.vectorize", "x[~na].astype", "f", "out.as_datetime", "len", "hour", "(hour(out[~na]) == 0).all", "minute", "(minute(out[~na]) == 0).all", "second", "(second(out[~na]) == 0).all", "out.as_date"]
+
 /-- dataiter/dt.py: year (sha256 of the function source: 966527defa24e52d) -/
 def dt_year (truth : Term → Bool) : Out :=
   Out.ret [] (Term.app "_pull_int" [(Term.sym "x"), (Term.app "lambda" [(Term.app "params" [(Term.sym "y")]), (Term.app ".year" [(Term.sym "y")])])])
@@ -268,6 +307,9 @@ def dt_year_decorators : List String := []
 
 /-- the signature of dataiter/dt.py: year: parameters in order, with the source text of their defaults -/
 def dt_year_signature : List String := ["x"]
+
+/-- the calls of dataiter/dt.py: year in the order Python makes them along the source text -/
+def dt_year_call_order : List String := ["_pull_int"]
 
 /-- dataiter/dt.py: quarter (sha256 of the function source: ad22adfe0412346d) -/
 def dt_quarter (truth : Term → Bool) : Out :=
@@ -280,6 +322,9 @@ def dt_quarter_decorators : List String := []
 /-- the signature of dataiter/dt.py: quarter: parameters in order, with the source text of their defaults -/
 def dt_quarter_signature : List String := ["x"]
 
+/-- the calls of dataiter/dt.py: quarter in the order Python makes them along the source text -/
+def dt_quarter_call_order : List String := ["month", "np.ceil", "np.isnan", "np.isnan(y).any", "y.astype"]
+
 /-- dataiter/dt.py: weekday (sha256 of the function source: 26c5b568200c704c) -/
 def dt_weekday (truth : Term → Bool) : Out :=
   Out.ret [] (Term.app "_pull_int" [(Term.sym "x"), (Term.app "lambda" [(Term.app "params" [(Term.sym "y")]), (Term.app ".weekday" [(Term.sym "y")])])])
@@ -289,6 +334,9 @@ def dt_weekday_decorators : List String := []
 
 /-- the signature of dataiter/dt.py: weekday: parameters in order, with the source text of their defaults -/
 def dt_weekday_signature : List String := ["x"]
+
+/-- the calls of dataiter/dt.py: weekday in the order Python makes them along the source text -/
+def dt_weekday_call_order : List String := ["_pull_int"]
 
 /-- dataiter/dt.py: replace (sha256 of the function source: 7a64db9835d04c00) -/
 def dt_replace (truth : Term → Bool) : Out :=
@@ -314,5 +362,8 @@ def dt_replace_decorators : List String := []
 
 /-- the signature of dataiter/dt.py: replace: parameters in order, with the source text of their defaults -/
 def dt_replace_signature : List String := ["x", "year=None", "month=None", "day=None", "hour=None", "minute=None", "second=None", "microsecond=None"]
+
+/-- the calls of dataiter/dt.py: replace in the order Python makes them along the source text -/
+def dt_replace_call_order : List String := ["locals", "locals().items", "kwargs.values", "map", "all", "_pull_datetime", "kwargs.values", "util.is_scalar", "len", "len", "util.is_scalar", "isinstance", "np.issubdtype", "np.full_like", "Vector.fast", "np.isnat", "x.astype", "np.flatnonzero", "xobj[i].replace"]
 
 end DI.Gen
